@@ -22,7 +22,9 @@
 #include <boost/gil/io/row_buffer_helper.hpp>
 #include <boost/gil/io/typedefs.hpp>
 
+#include <cstddef>
 #include <type_traits>
+#include <vector>
 
 namespace boost { namespace gil {
 
@@ -269,74 +271,53 @@ private:
                                                , this->get_info()
                                                );
 
-        row_buffer_helper_t buffer( rowbytes
-                                  , true
-                                  );
+        // libpng merges every pass of an interlaced image into what the row buffer
+        // holds from the earlier passes: such an image needs one buffer per image row
+        // that lives across the passes. A non-interlaced image reuses a single buffer.
+        const bool interlaced = this->_number_passes > 1;
+        const std::size_t image_height = static_cast< std::size_t >( this->_info._height );
 
-        png_bytep row_ptr = (png_bytep)( &( buffer.data()[0]));
+        std::vector< row_buffer_helper_t > buffers( interlaced ? image_height : 1
+                                                  , row_buffer_helper_t( rowbytes, true )
+                                                  );
+
+        auto buffer_of = [&]( std::size_t image_row ) -> row_buffer_helper_t&
+        {
+            return buffers[ interlaced ? image_row : 0 ];
+        };
+
+        auto read_row = [&]( std::size_t image_row )
+        {
+            png_bytep row_ptr = (png_bytep)( &( buffer_of( image_row ).data()[0] ));
+
+            // Read the image using the "sparkle" effect.
+            png_read_rows( this->get_struct()
+                         , &row_ptr
+                         , nullptr
+                         , 1
+                         );
+        };
+
+        const std::size_t top    = static_cast< std::size_t >( this->_settings._top_left.y );
+        const std::size_t bottom = top + static_cast< std::size_t >( this->_settings._dim.y );
 
         for( std::size_t pass = 0; pass < this->_number_passes; pass++ )
         {
-            if( pass == this->_number_passes - 1 )
+            const bool last_pass = ( pass == this->_number_passes - 1 );
+
+            // Every pass covers all rows of the image. libpng needs that.
+            for( std::size_t image_row = 0; image_row < image_height; ++image_row )
             {
-                // skip lines if necessary
-                for( std::ptrdiff_t y = 0; y < this->_settings._top_left.y; ++y )
-                {
-                    // Read the image using the "sparkle" effect.
-                    png_read_rows( this->get_struct()
-                                 , &row_ptr
-                                 , nullptr
-                                 , 1
-                                 );
-                }
+                read_row( image_row );
 
-                for( std::ptrdiff_t y = 0
-                   ; y < this->_settings._dim.y
-                   ; ++y
-                   )
+                if( last_pass && image_row >= top && image_row < bottom )
                 {
-                    // Read the image using the "sparkle" effect.
-                    png_read_rows( this->get_struct()
-                                 , &row_ptr
-                                 , nullptr
-                                 , 1
-                                 );
-
-                    it_t first = buffer.begin() + this->_settings._top_left.x;
+                    it_t first = buffer_of( image_row ).begin() + this->_settings._top_left.x;
                     it_t last  = first + this->_settings._dim.x; // one after last element
 
                     this->_cc_policy.read( first
                                          , last
-                                         , view.row_begin( y ));
-                }
-
-                // Read the rest of the image. libpng needs that.
-                std::ptrdiff_t remaining_rows = static_cast< std::ptrdiff_t >( this->_info._height )
-                                              - this->_settings._top_left.y
-                                              - this->_settings._dim.y;
-                for( std::ptrdiff_t y = 0
-                   ; y < remaining_rows
-                   ; ++y
-                   )
-                {
-                    // Read the image using the "sparkle" effect.
-                    png_read_rows( this->get_struct()
-                                 , &row_ptr
-                                 , nullptr
-                                 , 1
-                                 );
-                }
-            }
-            else
-            {
-                for( int y = 0; y < view.height(); ++y )
-                {
-                    // Read the image using the "sparkle" effect.
-                    png_read_rows( this->get_struct()
-                                 , &row_ptr
-                                 , nullptr
-                                 , 1
-                                 );
+                                         , view.row_begin( static_cast< std::ptrdiff_t >( image_row - top )));
                 }
             }
         }
